@@ -109,6 +109,12 @@ def subst_ctx(ctx, mapping):
     return tuple(out)
 
 
+def _ce(X):
+    if getattr(X, "CE", None) is None:
+        X.CE = og.CallExpander(X.F)
+    return X.CE
+
+
 def inline(X, fn, mapping=None, ctx=(), chain=(), depth=0, stop=()):
     """Yield IEmit / ICall events of `fn` with writer-function calls expanded in place.
     Calls to functions in `stop` are yielded as ICall and not expanded."""
@@ -120,7 +126,13 @@ def inline(X, fn, mapping=None, ctx=(), chain=(), depth=0, stop=()):
     for ev in X.events.get(fn, []):
         ectx = ctx + subst_ctx(ev.ctx, mapping)
         if ev.kind == "emit":
-            yield IEmit(ev, subst_parts(ev.parts, mapping), ectx, chain + (fn,))
+            sp = subst_parts(ev.parts, mapping)
+            if og.CANON and mapping:
+                # a parameter that was substituted by a template-valued argument: canonical again
+                for parts, extra in og.canon_parts(sp, _ce(X)):
+                    yield IEmit(ev, parts, ectx + extra, chain + (fn,))
+            else:
+                yield IEmit(ev, sp, ectx, chain + (fn,))
         else:
             args = [og.nf_subst(a, mapping) for a in ev.args]
             if ev.callee in stop or ev.callee not in X.events:
@@ -148,16 +160,45 @@ def alts(ctx):
 
 # ---- struct groups ------------------------------------------------------------------------------
 
-RE_STRUCT_OPEN = re.compile(r"^\s*pub struct (\{\}|\w+) \{\n$")
-RE_MEMBER = re.compile(r"^\s*pub (\{\}|[A-Za-z_#]\w*): (.*?),?\n$", re.S)
-RE_CHECK = re.compile(r"^\s*self\.(\{\}|[A-Za-z_#]\w*)\.check_restrictions\((.*?)\)(\?;)?\n$")
+# a name in a template is a run of holes and identifier characters (`{}`, `{}Header`, `header`)
+NAME = r"((?:\{\}|[A-Za-z0-9_#])+)"
+RE_STRUCT_OPEN = re.compile(r"^\s*pub struct " + NAME + r" \{\n$")
+RE_MEMBER = re.compile(r"^\s*pub " + NAME + r": (.*?),?\n$", re.S)
+RE_CHECK = re.compile(r"^\s*self\." + NAME + r"\.check_restrictions\((.*?)\)(\?;)?\n$")
 
 
-def _name_of(ev, m_group):
-    """The name in a template: the first hole's NF if the name is a hole, else the literal."""
-    if m_group == "{}":
-        return ev.holes()[0][0]
-    return ("lit", m_group)
+def _name_of(ev, m, group=1):
+    """The name in a template (regex group over the skeleton) as a normal form: the hole's value when the name is one hole, a
+    literal, or a format of the holes and literal pieces it is composed of."""
+    a, b = m.span(group)
+    pos = 0
+    pieces = []
+    for p in ev.parts:
+        if p[0] == "lit":
+            lo, hi = max(a, pos), min(b, pos + len(p[1]))
+            if lo < hi:
+                pieces.append(("lit", p[1][lo - pos:hi - pos]))
+            pos += len(p[1])
+        else:
+            if a <= pos and pos + 2 <= b:
+                pieces.append(p)
+            pos += 2
+    if len(pieces) == 1:
+        return pieces[0][1] if pieces[0][0] == "hole" else ("lit", pieces[0][1])
+    return ("format", tuple(pieces))
+
+
+RE_NAME_RUN = re.compile(r"(?:\{\}|[A-Za-z0-9_])+")
+
+
+def name_regions(ev):
+    """Normal forms of all identifier-like runs of a template that contain a hole: (`{}`, `{}Header`, `mod_{}`)."""
+    sk = ev.skeleton()
+    out = []
+    for m in RE_NAME_RUN.finditer(sk):
+        if "{}" in m.group(0):
+            out.append((_name_of(ev, m, 0), m.group(0)))
+    return out
 
 
 class Group:
@@ -189,7 +230,7 @@ def struct_groups(X, fn):
             if m and state in ("idle",):
                 cur = Group(fn)
                 cur.open = ev
-                cur.name = _name_of(ev, m.group(1))
+                cur.name = _name_of(ev, m, 1)
                 cur.pre = pre
                 pre = []
                 state = "members"
@@ -203,13 +244,13 @@ def struct_groups(X, fn):
                 cur.body_emits.append(ev)
                 mm = RE_MEMBER.match(sk)
                 if mm:
-                    cur.members.append((ev, _name_of(ev, mm.group(1)), ev.ctx, mm.group(2)))
+                    cur.members.append((ev, _name_of(ev, mm, 1), ev.ctx, mm.group(2)))
                 continue
             if state == "impl":
                 cur.impl_emits.append(ev)
                 mc = RE_CHECK.match(sk)
                 if mc:
-                    cur.checks.append((ev, _name_of(ev, mc.group(1)), ev.ctx, mc.group(2), bool(mc.group(3))))
+                    cur.checks.append((ev, _name_of(ev, mc, 1), ev.ctx, mc.group(2), bool(mc.group(3))))
                 continue
             if state in ("idle", "after-struct"):
                 pre.append(ev)
